@@ -315,6 +315,7 @@ func prelude(bv bool, useStr bool) string {
 		if useStr {
 			b.WriteString("(assert (forall ((s Str)) (! (and (>= (gstr.len s) 0) (<= (gstr.len s) 281474976710656)) :pattern ((gstr.len s)))))\n")
 			b.WriteString("(assert (forall ((s Str)) (! (=> (= (gstr.len s) 0) (= s gstr.empty)) :pattern ((gstr.len s)))))\n")
+			b.WriteString("(assert (forall ((s Str) (i Int)) (! (and (<= 0 (gstr.at s i)) (<= (gstr.at s i) 255)) :pattern ((gstr.at s i)))))\n")
 		}
 		b.WriteString("(define-fun go.div ((x Int) (y Int)) Int (ite (>= x 0) (ite (> y 0) (div x y) (- (div x (- y)))) (ite (> y 0) (- (div (- x) y)) (div (- x) (- y)))))\n")
 		b.WriteString("(define-fun go.rem ((x Int) (y Int)) Int (- x (* y (go.div x y))))\n")
